@@ -5,6 +5,7 @@ from pat import called, canon, is_call, deref_all, agg_variant, const_of
 from mir import natural_loops, callee_name
 from rules import editing, layout, dispatch
 from rules.c08 import param_provenance
+import prov
 
 FNS = ['functions::array_distinct_jsonb', 'functions::array_intersection_jsonb', 'functions::array_except_jsonb', 'functions::array_overlap_jsonb']
 EXPLANATION = (
@@ -64,7 +65,12 @@ def check(ctx, run):
         ok = all(ti[k][0] != te[k][0] for k in keys) and ti[(True, True)][0] is True and te[(True, True)][0] is False and ti[(True, True)][1] == te[(True, True)][1] is True \
             and not ti[(True, False)][1] and not te[(True, False)][1]
     b = f.bodies.get(FNS[1])
-    (run.proved if ok else run.violation)('R13.2', 'functions::array_intersection_jsonb+array_except_jsonb', 'complementary',
+    if not all(k in ti and k in te for k in keys):
+        run.undecided('R13.2', 'functions::array_intersection_jsonb+array_except_jsonb', 'complementary',
+                      f'the first-list loops are not both written as "look the element up, test its remaining count, push or skip, decrement" (classes found: intersection {sorted(map(str, ti))}, '
+                      f'except {sorted(map(str, te))}): whether the two results partition the first list is not decided', f'{b.file}:{b.line}' if b else '')
+    else:
+      (run.proved if ok else run.violation)('R13.2', 'functions::array_intersection_jsonb+array_except_jsonb', 'complementary',
                                            'on (found, count>0) intersection pushes and except skips, both decrementing; on every other class except pushes and intersection skips' if ok else
                                            f'path classes (found, count>0) -> (pushed, decremented): intersection {ti}, except {te}: the two results do not partition the first list',
                                            f'{b.file}:{b.line}' if b else '')
@@ -88,10 +94,18 @@ def check(ctx, run):
             for c in q.conds:
                 t = c[0]
                 if t[0] == 'bin' and t[1] == 'BitAnd' and any(x[0] == 'const' and x[1] == 0xE0000000 for x in (t[2], t[3])):
-                    src = 'h2' if ('value2' in show(t) or 'header2' in show(t)) else 'h1'
+                    pv = prov.prov(b)
+                    ps_ = set()
+                    for s_ in subterms(t):
+                        if s_[0] in ('init', 'hav') and isinstance(s_[1], int):
+                            ps_ |= pv.get(s_[1], set())
+                    src = 'h2' if (2 in ps_ and 1 not in ps_) else 'h1'
                     heads.setdefault(src, set()).add(c[2] if c[1] == 'eq' else 'otherwise')
         nargs = 1 if fn.endswith('distinct_jsonb') else 2
         ok = len(heads) == nargs and all(v == {0x80000000, 0x40000000, 'otherwise'} for v in heads.values())
+        if not ok and len(heads) < nargs and all(v == {0x80000000, 0x40000000, 'otherwise'} for v in heads.values()):
+            run.undecided('R13.4', fn, 'dispatch', f'only {len(heads)} of {nargs} argument headers are dispatched in this function (the other in a helper?): not decided', f'{b.file}:{b.line}')
+            continue
         (run.proved if ok else run.violation)('R13.4', fn, 'dispatch', 'array / object / scalar arms for every argument' if ok else f'header dispatch arms: {heads}', f'{b.file}:{b.line}')
     # ---- R13.5 provenance: pushes from arg 1, lookup structure from arg 2
     for fn in FNS[1:]:
